@@ -202,7 +202,7 @@ Section FileOps.
             | Some (NSym _ _) | None => (s, RFail EPermDenied)
             | Some n =>
                 if set_mode_ok (node_meta n) (v_user v)
-                then (with_heap s (upd h c (set_meta n (with_mode (node_meta n) mode))), ROk)
+                then (with_heap s (upd h c (set_meta n (with_mode (node_meta n) (chmod_mode (node_meta n) (v_user v) mode)))), ROk)
                 else (s, RFail EPermDenied)
             end
         end
